@@ -54,16 +54,37 @@ Print Assumptions C03_cbc_pkcs7_roundtrip.
 
 (* ---- crypto/aeskw (RFC 3394) --------------------------------------------------------- *)
 
-(* Unwrap inverts Wrap for every key data of n >= 1 whole 64-bit blocks (both variants of the
-   length check), for any block cipher with D key (E key b) = b. *)
+(* Current tree: WHATEVER Wrap returns, Unwrap (either variant of its length check) turns back
+   into the key data - any block cipher with D key (E key b) = b, any key data; no condition on
+   the length, because Wrap now refuses empty and partial-block key data. *)
 Theorem C03_kw_roundtrip : forall (E D : list N -> list N -> list N) (key : list N),
   (forall b, List.length b = 16 -> D key (E key b) = b) ->
   (forall b, List.length (E key b) = 16) ->
-  forall (v : variant) (cek : list N), List.length cek mod 8 = 0 -> 8 <= List.length cek ->
-  exists c, kw_wrap E key cek = Ok c /\ List.length c = List.length cek + 8 /\
-            kw_unwrap D v key c = Ok cek.
+  forall (v : variant) (cek c : list N),
+  kw_wrap E Fixed key cek = Ok c -> kw_unwrap D v key c = Ok cek.
 Proof. exact kw_roundtrip. Qed.
 Print Assumptions C03_kw_roundtrip.
+
+(* ... and Wrap does succeed on every key data of n >= 1 whole 64-bit blocks (both variants of
+   Wrap), giving 8 bytes more than it was given. *)
+Theorem C03_kw_wrap_succeeds : forall (E D : list N -> list N -> list N) (key : list N),
+  (forall b, List.length b = 16 -> D key (E key b) = b) ->
+  (forall b, List.length (E key b) = 16) ->
+  forall (vw v : variant) (cek : list N), List.length cek mod 8 = 0 -> 8 <= List.length cek ->
+  exists c, kw_wrap E vw key cek = Ok c /\ List.length c = List.length cek + 8 /\
+            kw_unwrap D v key c = Ok cek.
+Proof. exact kw_wrap_succeeds. Qed.
+Print Assumptions C03_kw_wrap_succeeds.
+
+(* Before fixes/C03-kw-wrap-empty.patch: the EMPTY key data "wrapped" to the bare 8-byte
+   integrity check value, which Unwrap refuses - EncryptSymmetric returned output that
+   DecryptSymmetric cannot decrypt. *)
+Theorem C03_kw_wrap_empty_refuted :
+  exists key c, aeskw_wrap Original key [] = Ok c /\ aeskw_unwrap Fixed key c = Err ErrOther /\
+                encrypt_symmetric Original "A128KW" (KOct key) [] [] [] = Ok (c, []) /\
+                decrypt_symmetric Fixed Fixed "A128KW" (KOct key) [] [] [] c = Err ErrOther.
+Proof. exact kw_wrap_empty_refuted. Qed.
+Print Assumptions C03_kw_wrap_empty_refuted.
 
 (* Current tree: whatever Unwrap accepts is a whole number, at least two, of 64-bit blocks. *)
 Theorem C03_kw_length_strict : forall (D : list N -> list N -> list N) (key c p : list N),
@@ -141,17 +162,15 @@ Print Assumptions C03_chacha_roundtrip.
 
 (* ---- round trip at the level of EncryptSymmetric / DecryptSymmetric ------------------ *)
 
-(* For EVERY algorithm name, key object, nonce, associated data and plaintext of bytes: whatever
-   EncryptSymmetric returns, DecryptSymmetric (either variant of the two repaired length checks)
-   turns back into the plaintext.  Premise: AES decryption inverts AES encryption.  Key wrap
-   needs at least one 64-bit block (the empty key data wraps to the bare IV, which Unwrap
-   refuses - see the report). *)
+(* Current tree.  For EVERY algorithm name, key object, nonce, associated data and plaintext of
+   bytes: whatever EncryptSymmetric returns, DecryptSymmetric (either variant of the two repaired
+   length checks) turns back into the plaintext.  Premise: AES decryption inverts AES
+   encryption.  No special case: key wrap of empty key data is now an error. *)
 Theorem C03_symmetric_roundtrip :
   (forall key, aes_inverts key) ->
   forall (vkw vopen : variant) (alg : string) (key : keyobj) (nonce aad pt ct tag : list N),
   bytes_ok nonce = true -> bytes_ok pt = true ->
-  (sym_family_of alg = Some FKw -> 8 <= List.length pt) ->
-  encrypt_symmetric alg key nonce aad pt = Ok (ct, tag) ->
+  encrypt_symmetric Fixed alg key nonce aad pt = Ok (ct, tag) ->
   decrypt_symmetric vkw vopen alg key nonce tag aad ct = Ok pt.
 Proof. exact symmetric_roundtrip. Qed.
 Print Assumptions C03_symmetric_roundtrip.
@@ -198,15 +217,15 @@ Print Assumptions C03_tamper_rejected.
    of the wrong kind or size with a sentinel defined for it, the result is an error whose
    sentinel is one of those that apply (ErrKeyTypeMismatch / ErrInvalidNonce /
    ErrInvalidPlaintextLength / ErrUnsupportedAlgorithm); if nothing is wrong the name is one of
-   the 19 and the call returns output - except key data that is not whole 64-bit blocks, which
-   aeskw refuses with its own error.  An error carries no output by construction. *)
+   the 19 and the call returns output - except key data that is empty or not whole 64-bit blocks,
+   which aeskw refuses with its own error.  An error carries no output by construction. *)
 Theorem C03_dispatch_total : forall alg key nonce aad pt,
   let ps := sym_problems false alg key nonce [] pt in
-  (ps <> [] -> exists e, encrypt_symmetric alg key nonce aad pt = Err e /\ In e ps) /\
+  (ps <> [] -> exists e, encrypt_symmetric Fixed alg key nonce aad pt = Err e /\ In e ps) /\
   (ps = [] -> exists st, sym_std_of alg = Some st /\
       if data_unnamed_problem false (ss_kind st) (List.length pt)
-      then encrypt_symmetric alg key nonce aad pt = Err ErrOther
-      else exists out, encrypt_symmetric alg key nonce aad pt = Ok out).
+      then encrypt_symmetric Fixed alg key nonce aad pt = Err ErrOther
+      else exists out, encrypt_symmetric Fixed alg key nonce aad pt = Ok out).
 Proof. exact dispatch_total_encrypt. Qed.
 Print Assumptions C03_dispatch_total.
 
@@ -227,7 +246,7 @@ Print Assumptions C03_dispatch_total_decrypt.
    SupportedSymmetricAlgorithms are exactly those the standards table knows. *)
 Theorem C03_unknown_name_unsupported : forall alg key nonce aad pt,
   sym_std_of alg = None -> key_is_oct key = true ->
-  encrypt_symmetric alg key nonce aad pt = Err ErrUnsupportedAlgorithm.
+  encrypt_symmetric Fixed alg key nonce aad pt = Err ErrUnsupportedAlgorithm.
 Proof. exact unknown_name_unsupported. Qed.
 Print Assumptions C03_unknown_name_unsupported.
 
